@@ -20,8 +20,9 @@ META = {
         "module function, class, nested classes, static/class methods, submodule and sub-package "
         "members (modules purged from sys.modules in a third of the cases so that the import path "
         "runs); half of the cases make exactly one node fail (unknown module / unknown attribute on "
-        "an importable module or class / raising factory / wrong arguments / non-callable) at a random "
-        "position; a quarter of the valid trees hold one container object at two positions (what a YAML alias "
+        "an importable module or class / raising factory / wrong arguments / non-callable / a __type__ that is null, empty, 0 or false) at a random "
+        "position; half of the trees whose root is a __type__ mapping are translated with extra construct keywords "
+        "(as the pipeline translator passes target=...), which only the root element may receive; a quarter of the valid trees hold one container object at two positions (what a YAML alias "
         "produces): every position must be constructed on its own; optional non-empty root location. Non-trivial = at least two __type__ nodes; "
         "distinct by content."
     ),
@@ -46,6 +47,10 @@ FAILURES = {
     "not_callable": "vfact.CONSTANT",
     "module_not_callable": "vfact.sub",
     "wrong_args": "vfact.strict",
+    "type_is_null": None,
+    "type_is_empty": "",
+    "type_is_zero": 0,
+    "type_is_false": False,
 }
 
 
@@ -129,8 +134,14 @@ def gen_case(rnd, spec):
             dst = rnd.choice(hosts)
             if dst[: len(src)] != src:  # not inside itself: no cycles
                 share = {"from": src, "into": dst, "key": "shared_copy"}
+    extra = None
+    if isinstance(tree, dict) and "__type__" in tree and share is None and rnd.random() < 0.5:
+        # additional construct keywords (as the pipeline translator passes target=...): for the root element only
+        extra = {"target": "TARGET-MARKER", "xtra": 7} if rnd.random() < 0.5 else {"target": "TARGET-MARKER"}
+        if fail is not None and fail["nid"] == tree.get("nid") and fail["kind"] == "wrong_args":
+            extra = None
     return {"tree": tree, "fail": fail, "where": rnd.choice(["", "", "", "cfg", ".pipeline[2]"]),
-            "purge": rnd.random() < 0.35, "share": share}
+            "purge": rnd.random() < 0.35, "share": share, "extra": extra}
 
 
 def container_paths(tree, path=()):
@@ -219,6 +230,9 @@ def execute(case, result):
     nodes = type_nodes(tree, case["where"])
     by_nid = {n["nid"]: (n, path) for n, path in nodes}
     kwargs = {"where": case["where"]} if case["where"] else {}
+    if case.get("extra"):
+        kwargs.update(case["extra"])
+        result.count("translations_with_extra_construct_keywords")
     err = None
     try:
         out = Translator().translate_hierarchy(tree, **kwargs)
@@ -253,6 +267,8 @@ def execute(case, result):
             for i, a in enumerate(want_args):
                 match(entry["args"][i], a, products, problems, "%s.__args__[%s]" % (path, i))
         want_kw = {k: v for k, v in node.items() if k not in ("__type__", "__args__")}
+        if case.get("extra") and node is tree:
+            want_kw = dict(want_kw, **case["extra"])  # the root element, and only it, gets the extra keywords
         if set(entry["kwargs"]) != set(want_kw):
             problems.append("node %s at %r: keywords %r, configured %r" % (nid, path, sorted(entry["kwargs"]), sorted(want_kw)))
         else:
@@ -362,6 +378,7 @@ def run_shard(spec):
 
 def finish(total, tier):
     needed = ["valid_trees", "failing_trees", "nodes_constructed", "order_constraints_checked", "cases_with_fresh_imports",
+              "translations_with_extra_construct_keywords",
               "trees_with_shared_container", "shared_type_nodes_checked"]
     needed += ["failing_" + k for k in FAILURES]
     for name in needed:
